@@ -279,6 +279,13 @@ class Exec:
             res = _real_wait(fs, timeout=timeout, return_when=return_when)
             self._observe_thread(res[0], e)
             return res
+        if timeout is not None and timeout <= 0:
+            # a poll ("collect what has already finished"): it never blocks, so nothing is released for it
+            e = self.ev("WAIT", kind="thread", n=len(fs), when=return_when, blocking=False, poll=True,
+                        inflight=self._inflight_sites())
+            res = _real_wait(fs, timeout=0, return_when=return_when)
+            self._observe_thread(res[0], e)
+            return res
         if not fs and return_when != cf.ALL_COMPLETED:
             self.ev("WAIT", kind="thread", n=0, when=return_when, blocking=True, hang="empty-set")
             raise HangDetected("concurrent.futures.wait(FIRST_COMPLETED) on an empty set blocks forever")
